@@ -29,6 +29,21 @@ fn col(i: usize) -> Option<Col> {
 
 /// `bytes` must consist of SGR sequences only; returns the state they produce from `from`.
 fn sgr_only(bytes: &[u8], from: SgrState) -> Result<SgrState, String> {
+    // nothing but whole `ESC [ parameters m` sequences (a torn introducer that a terminal would forgive is not a code)
+    let mut i = 0;
+    while i < bytes.len() {
+        if bytes[i..].starts_with(b"\x1b[") {
+            let mut j = i + 2;
+            while j < bytes.len() && (bytes[j].is_ascii_digit() || bytes[j] == b';' || bytes[j] == b':') {
+                j += 1;
+            }
+            if j < bytes.len() && bytes[j] == b'm' {
+                i = j + 1;
+                continue;
+            }
+        }
+        return Err(format!("code bytes {:?} are not a run of complete SGR sequences", show(bytes)));
+    }
     let ev = vt::parse(bytes, Policy::Consume);
     let mut sgr = RefSgr::new(UlMode::Flags);
     sgr.s = from;
@@ -478,6 +493,65 @@ impl Write for SendScripted {
     }
 }
 
+/// A sink that takes at most `cap` bytes per call, in `write` and - gathering across the slices - in `write_vectored`
+/// (a pipe or socket with little room).
+struct Capped {
+    cap: usize,
+    got: Vec<u8>,
+    calls: usize,
+}
+
+impl Write for Capped {
+    fn write(&mut self, buf: &[u8]) -> std::io::Result<usize> {
+        self.calls += 1;
+        let n = buf.len().min(self.cap);
+        self.got.extend_from_slice(&buf[..n]);
+        Ok(n)
+    }
+    fn write_vectored(&mut self, bufs: &[std::io::IoSlice<'_>]) -> std::io::Result<usize> {
+        self.calls += 1;
+        let mut left = self.cap;
+        let mut n = 0;
+        for b in bufs {
+            let k = b.len().min(left);
+            self.got.extend_from_slice(&b[..k]);
+            left -= k;
+            n += k;
+            if left == 0 {
+                break;
+            }
+        }
+        Ok(n)
+    }
+    fn flush(&mut self) -> std::io::Result<()> {
+        Ok(())
+    }
+}
+
+/// No fault at all, only little room per call: the call succeeds and the sink holds one exact frame around the data
+/// bytes reported as accepted.
+pub fn check_capped(fgi: usize, bgi: usize, data: &[u8], cap: usize) -> Result<(), (String, String)> {
+    let mut w: Box<dyn Write> = Box::new(Capped { cap, got: vec![], calls: 0 });
+    // (through the trait object, as the other scripted writers)
+    let r = w.write_colored(color(fgi), color(bgi), data);
+    let _ = r.as_ref().map_err(|e| e.kind());
+    // the box hides the sink: run it again on the concrete type to look inside
+    let mut c = Capped { cap, got: vec![], calls: 0 };
+    let r2 = {
+        let d: &mut dyn Write = &mut c;
+        d.write_colored(color(fgi), color(bgi), data)
+    };
+    match (r, r2) {
+        (Ok(a), Ok(n)) if a == n => {
+            if n > data.len() {
+                return Err(("c17:capped:count".into(), format!("returned {n} for {} data bytes", data.len())));
+            }
+            check_framing(&c.got, fgi, bgi, data, n).map_err(|(s, m)| (s.replace("c17:", "c17:capped:"), format!("{m} (sink takes {cap} bytes per call, the call returned Ok({n}))")))
+        }
+        (a, b) => Err(("c17:capped:unexpected-error".into(), format!("a sink that takes {cap} bytes per call and never fails: the calls returned {a:?} / {b:?}"))),
+    }
+}
+
 /// A writer that keeps a coloured transcript of what passes through it: its own `write` performs a coloured write on
 /// another stream (stacked adapters, a tee).
 struct Tee {
@@ -567,12 +641,9 @@ pub fn check_scripted(fgi: usize, bgi: usize, data: &[u8], script: &[Step], st: 
         }
         found
     };
-    if let Some(d) = didx {
-        if sh.calls[d].offered != data {
-            return Err(("c17:scripted:data-write".into(), format!("inner write {d} should be the single data write but offers {:?} instead of {:?}", show(&sh.calls[d].offered), show(data))));
-        }
-    }
-    // which fault (if any) must have surfaced: the first fatal one in call order
+    // (the structural identification above is kept for the coverage statistics only: which inner write a fault hit.  The
+    // verdict does not depend on how an implementation groups its inner writes - one call per code, both codes in one
+    // call, a reset attempted after a failure - because the statement does not.)
     let mut fatal: Option<(usize, ErrorKind)> = None;
     for (i, c) in sh.calls.iter().enumerate() {
         let is_data = Some(i) == didx;
@@ -594,31 +665,37 @@ pub fn check_scripted(fgi: usize, bgi: usize, data: &[u8], script: &[Step], st: 
             st.arr("fault_hit_inner_write_index", i.min(7), 8);
         }
     }
-    match (ret, fatal) {
-        (Err(e), Some((i, k))) => {
-            if e.kind() != k {
-                return Err(("c17:scripted:error-kind".into(), format!("inner write {i} failed with {k:?} but the call returned Err({:?})", e.kind())));
+    match ret {
+        // success: the writer holds one complete frame around exactly the data bytes reported as accepted - whatever
+        // happened on the way (a fault that was not reported must have been overcome, or the frame is incomplete)
+        Ok(n) => {
+            if n > data.len() {
+                return Err(("c17:scripted:count".into(), format!("returned {n} for {} data bytes", data.len())));
             }
-            if i + 1 != sh.calls.len() {
-                return Err(("c17:scripted:writes-after-error".into(), format!("inner write {i} failed, yet {} more writes followed", sh.calls.len() - i - 1)));
-            }
-            Ok(())
+            check_framing(&sh.delivered, fgi, bgi, data, n).map_err(|(s, m)| {
+                let steps: Vec<Step> = sh.calls.iter().map(|c| c.step).collect();
+                (s.replace("c17:", "c17:scripted:"), format!("{m} (the call returned Ok({n}); inner writes answered {steps:?})"))
+            })
         }
-        (Err(e), None) => Err(("c17:scripted:spurious-error".into(), format!("returned Err({:?}) without any injected fatal fault; calls: {:?}", e.kind(), sh.calls.iter().map(|c| c.step).collect::<Vec<_>>()))),
-        (Ok(n), Some((i, k))) => Err(("c17:scripted:error-swallowed".into(), format!("inner write {i} failed with {k:?} but the call returned Ok({n})"))),
-        (Ok(n), None) => {
-            let Some(d) = didx else {
-                if data.is_empty() {
-                    // an empty data write cannot be told apart from nothing: fall back to the framing rule
-                    return check_framing(&sh.delivered, fgi, bgi, data, 0).map_err(|(s, m)| (s.replace("c17:", "c17:scripted:"), m));
-                }
-                return Err(("c17:scripted:no-data-write".into(), format!("no inner write offered the data {:?}", show(data))));
-            };
-            let acc = sh.calls[d].accepted;
-            if n != acc {
-                return Err(("c17:scripted:count".into(), format!("returned {n} but the writer accepted {acc} of {} data bytes", data.len())));
+        // failure: some inner write must have failed that way (a writer that accepted zero bytes of a non-empty buffer
+        // counts as WriteZero); an error out of nowhere - or of another kind than any injected one - is the library's own
+        Err(e) => {
+            let explained = sh.calls.iter().any(|c| match c.step {
+                Step::Interrupted => e.kind() == ErrorKind::Interrupted,
+                Step::WouldBlock => e.kind() == ErrorKind::WouldBlock,
+                Step::Other => e.kind() == ErrorKind::Other,
+                Step::Accept(0) => !c.offered.is_empty() && e.kind() == ErrorKind::WriteZero,
+                _ => false,
+            });
+            if explained {
+                return Ok(());
             }
-            check_framing(&sh.delivered, fgi, bgi, data, acc).map_err(|(s, m)| (s.replace("c17:", "c17:scripted:"), m))
+            let steps: Vec<Step> = sh.calls.iter().map(|c| c.step).collect();
+            if steps.iter().any(|s| matches!(s, Step::Interrupted | Step::WouldBlock | Step::Other | Step::Accept(0))) {
+                Err(("c17:scripted:error-kind".into(), format!("the call returned Err({:?}), which none of the inner writes produced; they answered {steps:?}", e.kind())))
+            } else {
+                Err(("c17:scripted:spurious-error".into(), format!("returned Err({:?}) without any injected fault; calls: {steps:?}", e.kind())))
+            }
         }
     }
 }
@@ -751,6 +828,22 @@ pub fn run(cfg: &Cfg) -> Stats {
                         let r = vcore::guarded(|| check_plain(pair.0, pair.1, &data, *t));
                         eval(r, &mut st, case, true, true);
                     }
+                }
+            }
+        }
+        // sinks with room for 1 ..= 40 bytes per call (gathering in write_vectored)
+        for cap in 1..=40usize {
+            for (di, data) in DATA.iter().enumerate() {
+                for pair in [(2usize, 0usize), (0, 13), (9, 16), (1, 1), (0, 0)] {
+                    k += 1;
+                    if k % n != shard {
+                        continue;
+                    }
+                    let case = Case::new("c17-capped").b(data).n(pair.0 as i64).n(pair.1 as i64).n(cap as i64);
+                    let r = vcore::guarded(|| check_capped(pair.0, pair.1, data, cap));
+                    st.count("capped_sink_runs");
+                    eval(r, &mut st, case, true, true);
+                    let _ = di;
                 }
             }
         }
@@ -918,6 +1011,9 @@ pub fn replay(case: &Case) -> Result<String, Viol> {
     let r = if case.kind == "c17-stdio-full" {
         let kind = STDIO_KINDS[case.nums.get(2).copied().unwrap_or(0) as usize % 4];
         vcore::guarded(|| check_stdio_full(kind, fgi, bgi, &data))
+    } else if case.kind == "c17-capped" {
+        let cap = case.nums.get(2).copied().unwrap_or(1).max(1) as usize;
+        vcore::guarded(|| check_capped(fgi, bgi, &data, cap))
     } else if case.kind == "c17-stdio-tls" {
         let kind = STDIO_KINDS[case.nums.get(2).copied().unwrap_or(0) as usize % 4];
         vcore::guarded(|| check_stdio_tls(kind, fgi, bgi, &data))
